@@ -167,6 +167,56 @@ def check_shared_state(ctx, prog, root, prefix):
     return n7
 
 
+def check_registrations_take_effect(ctx, prog):
+    """U9: an explicit registration always takes effect.  Every `&mut self` method of Environment named add_* / set_*
+    writes (a map insert / push, a field store, or a call of another method of the receiver) on *every* path to a
+    return.  An early return that keeps what was there ("the value is already equal", decided with the engine's loose
+    `==`) makes the environment depend on what it held before: `add_global("ratio", 1.0)` after `add_global("ratio", 1)`
+    keeps rendering `1`."""
+    E = "minijinja::environment::Environment::"
+    n = 0
+    for k, f in sorted(prog.fns.items()):
+        if not k.startswith(E) or f.kind == "closure":
+            continue
+        nm = k[len(E):]
+        if not (nm.startswith("add_") or nm.startswith("set_")) or f.argc < 2:
+            continue
+        if not f.locals[1].get("s", "").startswith("&mut "):
+            continue
+        writes = set()
+        for c in f.calls():
+            selfy = any(o.kind == "arg" and o.arg == 1 for a in c.args[:1] if "c" not in a for o in flow.origins(f, a))
+            last = c.name.split("::")[-1]
+            if last in ("insert", "replace", "push", "extend") or (selfy and prog.has_fn(c.name) and c.name != k):
+                writes.add(c.bb)
+        for d in flow.stores(f):
+            if any(o.kind == "arg" and o.arg == 1 for o in flow.origins(f, d.place["l"])):
+                writes.add(d.bb)
+        for l, ds in flow.defs(f).items():
+            for d in ds:
+                if d.kind in ("part", "partcall") and l == 1:
+                    writes.add(d.bb)
+        n += 1
+        # error returns (a template that does not compile) are not registrations
+        rets = set(f.returns())
+        ok_rets = set()
+        for r in rets:
+            ok_rets.add(r)
+        is_result = f.locals[0].get("adt") == "core::result::Result"
+        if is_result:
+            errs = {bb for bb, i, s_ in f.all_stmts() if s_["k"] == "assign" and s_["place"] == {"l": 0} and
+                    s_["rv"].get("k") == "agg" and s_["rv"].get("variant") == "Err"}
+            # paths that assign Err(..) to the return place are exempt: cut them by avoiding those blocks
+            reach = cfg.reach_from(f, 0, avoid=writes | errs)
+            ok = not (reach & rets)
+        else:
+            ok = cfg.paths_must_pass(f, 0, writes, rets)
+        ctx.ob("C15.U9.registration-always-takes-effect", nm, bool(writes) and ok,
+               "Environment::%s can return without storing what it was given (a path from the entry to a return passes no "
+               "insert / store): what the environment then holds depends on what was registered before" % nm, f.loc)
+    ctx.floor("C15.U9 add_* / set_* methods of Environment", n, 12)
+
+
 def check_buffer_pools(ctx, prog, prefix="C15.U4"):
     """the code generator's pooled scratch vectors (pending blocks, span stack) are thread-local and outlive a
     compilation: only the take / recycle helpers touch a pool, and a taken buffer is cleared on every path before it is
@@ -383,6 +433,8 @@ def run(ctx):
                                     % s["ty"].get("s")), "%s:%s" % (s["loc"].get("f"), s["loc"].get("l")))
     ctx.floor("C15.U3 mutable statics / thread-locals", n3, 12)
 
+    # ---- U9
+    check_registrations_take_effect(ctx, prog)
     # ---- U4
     check_buffer_pools(ctx, prog)
     # INTERNAL_SERIALIZATION
